@@ -43,6 +43,8 @@ pub struct Shape {
     pub n: usize,
     pub m: usize,
     pub stack: Stack,
+    /// run algorithms::diff_deadline under the symbolic clock (every expiry point)
+    pub clock: bool,
 }
 
 #[derive(Debug, PartialEq, Eq, Clone)]
@@ -118,7 +120,25 @@ impl DiffHook for Rec<true> {
 }
 
 fn drive<D: DiffHook<Error = MyErr>>(alg: Algorithm, stack: Stack, rec: &mut D, inp: &Inputs) -> Result<(), MyErr> {
+    drive_dl(alg, stack, rec, inp, None)
+}
+
+fn drive_dl<D: DiffHook<Error = MyErr>>(alg: Algorithm, stack: Stack, rec: &mut D, inp: &Inputs, dl: Option<std::time::Instant>) -> Result<(), MyErr> {
     let (o, or, n, nr) = (&inp.old, inp.or.clone(), &inp.new, inp.nr.clone());
+    if dl.is_some() {
+        return match stack {
+            Stack::Bare => algorithms::diff_deadline(alg, rec, o, or, n, nr, dl),
+            Stack::MutRef => {
+                let mut r: &mut D = rec;
+                algorithms::diff_deadline(alg, &mut r, o, or, n, nr, dl)
+            }
+            Stack::Replace => algorithms::diff_deadline(alg, &mut Replace::new(rec), o, or, n, nr, dl),
+            Stack::Compact => algorithms::diff_deadline(alg, &mut Compact::new(rec, o, n), o, or, n, nr, dl),
+            Stack::CompactReplace => algorithms::diff_deadline(alg, &mut Compact::new(Replace::new(rec), o, n), o, or, n, nr, dl),
+            Stack::NoFinish => algorithms::diff_deadline(alg, &mut NoFinishHook::new(rec), o, or, n, nr, dl),
+            Stack::NoFinishReplace => algorithms::diff_deadline(alg, &mut NoFinishHook::new(Replace::new(rec)), o, or, n, nr, dl),
+        };
+    }
     match stack {
         Stack::Bare => algorithms::diff(alg, rec, o, or, n, nr),
         Stack::MutRef => {
@@ -150,7 +170,10 @@ impl Prop for C08 {
             for n in 0..=max {
                 for m in 0..=max {
                     for stack in STACKS {
-                        v.push(Shape { alg, n, m, stack });
+                        v.push(Shape { alg, n, m, stack, clock: false });
+                        if n <= 3 && m <= 3 && matches!(stack, Stack::Bare | Stack::Replace | Stack::CompactReplace) {
+                            v.push(Shape { alg, n, m, stack, clock: true });
+                        }
                     }
                 }
             }
@@ -164,7 +187,17 @@ impl Prop for C08 {
         let k = engine::fresh_int();
         engine::assume(&F::not(F::A(Atom::LtC(k, 0))));
         let mut rec = Rec::<true>::new(k);
-        let r = drive(s.alg, s.stack, &mut rec, &inp);
+        let r = if s.clock {
+            let clock = install_clock();
+            let r = drive_dl(s.alg, s.stack, &mut rec, &inp, any_instant());
+            similar::verif_clock::install(None);
+            if clock.fired_at.get().is_some() {
+                engine::witness("paths_where_the_deadline_fired");
+            }
+            r
+        } else {
+            drive(s.alg, s.stack, &mut rec, &inp)
+        };
         let suppresses_finish = matches!(s.stack, Stack::NoFinish | Stack::NoFinishReplace);
         match &r {
             Err(e) => {
@@ -189,7 +222,13 @@ impl Prop for C08 {
                     "the hook failed at call {:?} but the diff returned Ok (calls {:?})",
                     rec.failed_at, rec.calls
                 );
-                if suppresses_finish {
+                if s.clock {
+                    claim!(
+                        rec.finishes == 1 && rec.calls.last() == Some(&Call::Finish),
+                        "finish must be called exactly once and last, also when the deadline expires (calls {:?})",
+                        rec.calls
+                    );
+                } else if suppresses_finish {
                     claim!(rec.finishes == 0, "NoFinishHook let finish through (calls {:?})", rec.calls);
                     // everything except finish is forwarded: same stream as without the wrapper, minus Finish
                     let mut rec2 = Rec::<true>::new(k);
@@ -212,7 +251,7 @@ impl Prop for C08 {
                 }
                 engine::witness("paths_that_succeeded");
                 // a hook that does not override replace receives a delete followed by an insert
-                if matches!(s.stack, Stack::Replace | Stack::CompactReplace) {
+                if !s.clock && matches!(s.stack, Stack::Replace | Stack::CompactReplace) {
                     let mut plain = Rec::<false>::new(k);
                     let r3 = drive(s.alg, s.stack, &mut plain, &inp);
                     if r3.is_ok() {
@@ -244,7 +283,7 @@ impl Prop for C08 {
         (s.n + s.m) as u64
     }
     fn shape_json(&self, s: &Shape) -> Value {
-        json!({"alg": alg_name(s.alg), "n": s.n, "m": s.m, "stack": s.stack.name()})
+        json!({"alg": alg_name(s.alg), "n": s.n, "m": s.m, "stack": s.stack.name(), "clock": s.clock})
     }
     fn shape_from(&self, v: &Value) -> Shape {
         Shape {
@@ -252,11 +291,15 @@ impl Prop for C08 {
             n: v["n"].as_u64().unwrap() as usize,
             m: v["m"].as_u64().unwrap() as usize,
             stack: Stack::from(v["stack"].as_str().unwrap()),
+            clock: v["clock"].as_bool().unwrap_or(false),
         }
     }
     fn describe(&self, s: &Shape, ints: &[i64], _b: &[bool]) -> Value {
         let mut d = describe_inputs(s.n, s.m, Layout::Slice { pre_o: 0, post_o: 0, pre_n: 0, post_n: 0 }, ints);
         d["failing_call_index_k"] = json!(ints.get(s.n + s.m));
+        if s.clock {
+            d["deadline_probe_outcomes"] = json!(_b);
+        }
         d
     }
     fn meta(&self, tier: Tier) -> Meta {
@@ -268,10 +311,10 @@ impl Prop for C08 {
                 "similar::DiffOp::apply_to_hook (inside Compact::finish)",
                 "patience::Patience hook (equal/finish forwarding errors)",
             ],
-            bounds: format!("3 algorithms x n,m in 0..={} x adapter stacks {{none, &mut, Replace, Compact, Compact<Replace>, NoFinishHook, NoFinishHook<Replace>}}; the index k of the failing hook call is a z3 Int >= 0, each hook call i decides k == i, so every failing position (incl. finish) and 'never fails' are explored", match tier { Tier::Quick => 4, Tier::Thorough => 5 }),
+            bounds: format!("3 algorithms x n,m in 0..={} x adapter stacks {{none, &mut, Replace, Compact, Compact<Replace>, NoFinishHook, NoFinishHook<Replace>}}; the index k of the failing hook call is a z3 Int >= 0, each hook call i decides k == i, so every failing position (incl. finish) and 'never fails' are explored; for n,m<=3 and the stacks none / Replace / Compact<Replace> additionally through algorithms::diff_deadline under the symbolic clock (every expiry point x every failing position)", match tier { Tier::Quick => 4, Tier::Thorough => 5 }),
             outside: "lengths beyond the bound; hooks that fail more than once or panic".into(),
             assumptions: vec!["the failing hook returns its error exactly once".into()],
-            required_witnesses: vec!["paths_where_a_hook_call_failed", "paths_where_finish_failed", "paths_that_succeeded", "paths_with_default_replace"],
+            required_witnesses: vec!["paths_where_a_hook_call_failed", "paths_where_finish_failed", "paths_that_succeeded", "paths_with_default_replace", "paths_where_the_deadline_fired"],
             rule: "one state = one explored path = one equality pattern x one failing call index; one transition = one solver decision".into(),
         }
     }
